@@ -229,9 +229,13 @@ theorem dateString_parse (y m d : Int) (hy : 0 ≤ y ∧ y ≤ 9999) (hv : Valid
   have hv' := hv
   obtain ⟨hm1, hm2, hd1, hd2⟩ := hv'
   have hfields := parse_default_fields Y M D (by omega) (by omega) (by have := hb.2.2; omega)
-  unfold parseDate dateString
-  rw [c1, c2, c3, hfields]
+  have hs : dateString (makeDate (Y : Int) (M : Int) (D : Int)) =
+      fmtZero 4 (Y : Int) ++ '-' :: fmtZero 2 (M : Int) ++ '-' :: fmtZero 2 (D : Int) := by
+    unfold dateString; rw [c1, c2, c3]
+  unfold parseDate
+  rw [hs, hfields]
+  unfold finishParse
   simp only [construct_ymd _ _ _ hr hv]
-  simp
+  rfl
 
 end Elk.DateFmt
